@@ -158,9 +158,19 @@ where
             shutdown_coordinator,
         } = self;
         'event_loop: loop {
+            #[cfg(feature = "verif_hooks")]
+            super::verif::checkpoint(super::verif::Point::WLoop(id));
             let message =
                 poll_fn(|cx| Self::poll_inboxes(cx, &mut shutdown_inbox, &mut connection_inbox))
                     .await;
+            #[cfg(feature = "verif_hooks")]
+            super::verif::checkpoint(super::verif::Point::WMsg(
+                id,
+                match &message {
+                    WorkerInboxMessage::Connection(c) => super::verif::MsgKind::Conn(c.peer_addr),
+                    WorkerInboxMessage::Shutdown(_) => super::verif::MsgKind::Shutdown,
+                },
+            ));
             match message {
                 WorkerInboxMessage::Connection(connection) => {
                     Self::handle_connection(
@@ -181,7 +191,13 @@ where
                             connection_inbox.close();
 
                             // Kick-off work for all pending connections.
+                            #[cfg(feature = "verif_hooks")]
+                            let mut verif_n_drained = 0usize;
                             while let Some(connection) = connection_inbox.recv().await {
+                                #[cfg(feature = "verif_hooks")]
+                                {
+                                    verif_n_drained += 1;
+                                }
                                 Self::handle_connection(
                                     connection,
                                     handler,
@@ -189,6 +205,11 @@ where
                                     &shutdown_coordinator,
                                 );
                             }
+                            #[cfg(feature = "verif_hooks")]
+                            super::verif::checkpoint(super::verif::Point::WDrained(
+                                id,
+                                verif_n_drained,
+                            ));
 
                             // Wait for all live connections to be closed or for the timeout to expire.
                             let _ = tokio::time::timeout(timeout, shutdown_coordinator.shutdown())
